@@ -2,8 +2,11 @@ _D = ('determ', 8, 120)
 _DC = ('determcc', 8, 80)
 _C = ('close', 30, 300)
 _H = ('hostile', 12, 600, [2000194])   # corpus seed: the pacing timer re-armed at `now` (fixed in ecb8a58)
+# the only scenario with CID lifetimes (Timer::PushNewCid) and endpoint events routed between timeout rounds: its settle
+# oracle (timeout-settle-not-reached / steps-without-time-advance) belongs to C20
+_MU = ('multi', 60, 600)
 PROPS = {
-    'C20': dict(sim=[_D, _DC, _C, _H],
+    'C20': dict(sim=[_D, _DC, _C, _H, _MU],
                 modelled='STATIC: the list of every construct of quinn-proto production code that reads a clock, OS entropy, the environment, a thread or iterates a randomly keyed std HashMap/HashSet is regenerated from the source (tools/gen.d/entropy.py -> Gen.hiddenInputs) and proved equal to the committed, justified allowlist; PathData::new/reset building controllers with build_seeded(Connection.rng) is shape-anchored; the tail of Pacer::delay (a wake-up instant only when the delay is non-zero; shape anchored); timer.rs TimerTable (set/stop/get/next_timeout/is_expired, Timer::VALUES order: generated), the lifecycle timers (Close, Idle) and every lifecycle event carrying an instant; TimerTable::next_timeout and the expired set are validated against the model at every serviced timeout of the simulator',
                 not_modelled='hidden-input freedom of the Rust code is checked statically by text patterns (a source of entropy reached through another crate or a pattern not on the list is not seen) and differentially (replay / shifted replay / spurious handle_timeout, poll_transmit and poll calls on whole simulated connections; controller-visible state of NewReno/Cubic/BBR across replays in determcc), not proved; loss-detection, pacing, key-discard, path-validation, CID and ack-delay timer expressions are not in the Lean model (growth)'),
 }
